@@ -270,3 +270,34 @@ def mutation_during_iteration(ctx, f):
 def _local_defs(f, name):
     from ..engine import local_defs
     return [d for d in local_defs(f, name) if not isinstance(d, tuple)]
+
+
+# ------------------------------------------------------------------ truthiness used to detect "not given" for a number
+def numeric_optional_params(f):
+    """parameters of f whose default is None and whose annotation says int / float (0 is a legal value for them)"""
+    out = []
+    a = f.node.args
+    pos = a.posonlyargs + a.args
+    defaults = [None] * (len(pos) - len(a.defaults)) + list(a.defaults)
+    for p_, d in list(zip(pos, defaults)) + list(zip(a.kwonlyargs, a.kw_defaults)):
+        if isinstance(d, ast.Constant) and d.value is None and p_.annotation is not None:
+            t = U(p_.annotation).replace(" ", "")
+            if t in ("int", "float", "Optional[int]", "Optional[float]", "Union[int,float]", "Optional[Union[int,float]]"):
+                out.append(p_.arg)
+    return out
+
+
+def truthiness_uses(f, name):
+    """places where `name` is used for its truth value: `name or x`, `name and x`, `if name`, `not name`, `x if name else y`"""
+    out = []
+    for x in walk_shallow(f.node, include_lambda=True):
+        if isinstance(x, ast.BoolOp) and any(isinstance(v, ast.Name) and v.id == name for v in x.values[:-1]):
+            out.append(x)
+        elif isinstance(x, ast.BoolOp) and isinstance(getattr(x, "_parent", None), (ast.If, ast.IfExp, ast.While)) \
+                and any(isinstance(v, ast.Name) and v.id == name for v in x.values):
+            out.append(x)
+        elif isinstance(x, (ast.If, ast.IfExp, ast.While)) and isinstance(x.test, ast.Name) and x.test.id == name:
+            out.append(x)
+        elif isinstance(x, ast.UnaryOp) and isinstance(x.op, ast.Not) and isinstance(x.operand, ast.Name) and x.operand.id == name:
+            out.append(x)
+    return out
